@@ -3,12 +3,13 @@ from .. import core
 from . import _ecell_prop as E
 
 PID = 'C07'
-PROFILE_C07 = {'pressure': 0.9, 'failure': 0.4, 'prio0': 0.2, 'alloc': 0.7, 'renew': 0.2}
+PROFILE_C07 = {'pressure': 0.9, 'failure': 0.4, 'prio0': 0.2, 'alloc': 0.5, 'renew': 0.2, 'few_shapes': 0.6, 'traits': 0.5,
+              'affinity': 0.2}
 RULE_C07 = 'C07 profile: arrivals larger than the free space, priorities changing, servers failing; the queue handed to _find_placements is captured'
 
 
 def run(tier, seed):
-    spec = E.make_spec(PID, PROFILE_C07, RULE_C07)
+    spec = E.make_spec(PID, PROFILE_C07, RULE_C07, n_quick=140)
     core.standard_run(PID, tier, seed, spec)
 
 
